@@ -40,6 +40,7 @@ TNext == \/ Op("PushBack", PushBackV(E.o, E.v))
          \/ Op("CopyConstruct", CopyConstruct(E.o))
          \/ Op("CopyAssign", CopyAssign(E.o))
          \/ Op("SelfCopyAssign", SelfCopyAssign(E.o)) \/ Op("SelfMoveAssign", SelfMoveAssign(E.o))
+         \/ Op("PushBackOfFront", PushBackOfFront(E.o)) \/ Op("PushFrontOfBack", PushFrontOfBack(E.o))
          \/ Op("MoveConstruct", MoveConstruct(E.o))
          \/ Op("MoveAssign", MoveAssign(E.o))
          \/ Op("Destroy", Destroy(E.o))
